@@ -51,6 +51,7 @@ pub fn load_known() -> (Vec<Known>, Vec<String>) {
 pub fn child_main(prop_id: &str, tier: Tier, seed: u64, shard: usize, nshards: usize) {
     let prop = lookup(prop_id).expect("unknown property");
     let cases = prop.cases(tier);
+    let known: Vec<String> = load_known().0.into_iter().filter(|k| k.prop == prop_id).map(|k| k.key).collect();
     let out = std::io::stdout();
     let mut case = shard;
     while case < cases {
@@ -59,7 +60,7 @@ pub fn child_main(prop_id: &str, tier: Tier, seed: u64, shard: usize, nshards: u
             writeln!(o, "{{\"starting\":{case}}}").unwrap();
             o.flush().unwrap();
         }
-        let rep = run_case(prop.as_ref(), seed, case as u64, tier, &replay_dir());
+        let rep = run_case(prop.as_ref(), seed, case as u64, tier, &replay_dir(), &known);
         let mut o = out.lock();
         writeln!(o, "{}", serde_json::to_string(&rep).unwrap()).unwrap();
         o.flush().unwrap();
@@ -133,6 +134,9 @@ pub fn check_main(prop_id: &str, tier: Tier, seed: u64) -> i32 {
             }
             for (k, v) in r.families {
                 *total.families.entry(k).or_insert(0) += v;
+            }
+            for (k, v) in r.known_hits {
+                *total.known_hits.entry(k).or_insert(0) += v;
             }
             if let Some(s) = r.sample
                 && samples.len() < 6
@@ -234,6 +238,7 @@ pub fn check_main(prop_id: &str, tier: Tier, seed: u64) -> i32 {
             "blind_probes": blind,
             "real_vs_stub": prop.real_vs_stub(),
             "known_findings_seen": known_seen.iter().cloned().collect::<Vec<_>>(),
+            "known_finding_hits": total.known_hits,
             "pinned": pinned_notes,
             "fixed_entries": fixed,
             "jobs": jobs,
@@ -291,7 +296,8 @@ pub fn replay_main(path: &str) -> i32 {
         let seed = v["seed"].as_u64().unwrap_or(1);
         let case = v["case"].as_u64().unwrap_or(0);
         let Some(prop) = lookup(prop_id) else { return 2 };
-        let rep = run_case(prop.as_ref(), seed, case, tier, &replay_dir());
+        let known: Vec<String> = load_known().0.into_iter().filter(|k| k.prop == prop_id).map(|k| k.key).collect();
+        let rep = run_case(prop.as_ref(), seed, case, tier, &replay_dir(), &known);
         if rep.violations.is_empty() {
             println!("case completed without violation (the recorded failure was a process abort)");
             return 2;
